@@ -274,6 +274,10 @@ def accepted_set(repo, mod, fn, var, U, periodic_window=None):
     for p in enum_paths(fn.body, loops="skip"):
         cond = ISet.full(U.lo, U.hi)
         for s in p.stmts():
+            if isinstance(s, ast.Assign) and all(isinstance(t, ast.Name) for t in s.targets) and not any(
+                    isinstance(x, ast.Call) for x in ast.walk(s.value)) and not any(
+                    isinstance(n, ast.Name) and isinstance(n.ctx, ast.Load) and n.id in {t.id for t in s.targets} for n in ast.walk(fn)):
+                continue      # a dead binding (its uses were replaced by the bound literal)
             if isinstance(s, (ast.For, ast.While, ast.Assign, ast.AugAssign)):
                 raise Undecidable(f"statement kind {type(s).__name__} in predicate")
         for t, truth in p.conds():
